@@ -215,6 +215,42 @@ func genCliStall(p *prng, thorough bool, w *bufio.Writer) {
 		}
 		s.stallEnd([]string{"close", "cut", "close"}[i%3])
 	}
+	// GOAWAY while a request's HEADERS are still on their way out (the peer is slow to read): the request is at or
+	// below last-stream-id, the server goes on to answer it, so it completes (C11: requests the GOAWAY covers still
+	// get their responses; the read loop stops only when none of them is left)
+	ng := 8
+	if thorough {
+		ng = 80
+	}
+	for i := 0; i < ng; i++ {
+		q := p.fork()
+		s := newScn(w, q, 3, 100)
+		var before []uint32
+		for j := 0; j < 1+q.intn(2); j++ {
+			_, sid := s.req(reqSpec{path: fmt.Sprintf("/before%d", j)})
+			before = append(before, sid)
+		}
+		if q.chance(1, 2) {
+			s.op("stall")
+		} else {
+			s.op("stall %d", 1+q.intn(12))
+		}
+		t2, sid2 := s.req(reqSpec{path: "/being-written"})
+		last := uint32(1<<31 - 1)
+		if q.chance(1, 2) {
+			last = sid2
+		}
+		s.op("flood 1 %s", hexOrDash(frGoAway(last, 0, nil)))
+		for _, sid := range before {
+			s.op("flood 1 %s", hexOrDash(s.resp(sid, "200", nil, nil)))
+		}
+		s.op("unstall")
+		s.op("flood 1 %s", hexOrDash(s.resp(sid2, "200", nil, []byte("late but promised"))))
+		s.note("expect-ok %s %s", s.id, t2)
+		s.op("unstall")
+		s.read(s.tags...)
+		s.op("end")
+	}
 	// the request queue itself fills up (128 entries) behind a blocked write
 	nq := 1
 	if thorough {
